@@ -681,7 +681,9 @@ impl Buffer {
 
     #[must_use]
     pub fn get_font_dimensions(&self) -> Size {
-        self.font_table[&0].size
+        // slot 0 need not be occupied: the lowest occupied slot counts (that is slot 0 if present), 8x16 without any font
+        let slot = self.font_table.keys().min();
+        slot.and_then(|slot| self.get_font(*slot)).map_or(Size::new(8, 16), |font| font.size)
     }
 
     /// .
@@ -777,7 +779,7 @@ impl Buffer {
     ///
     /// Panics if .
     pub fn render_to_rgba(&self, rect: Rectangle) -> (Size, Vec<u8>) {
-        let font_size = self.get_font(0).unwrap().size;
+        let font_size = self.get_font_dimensions();
 
         let px_width = rect.get_width() * font_size.width;
         let px_height = rect.get_height() * font_size.height;
